@@ -8,11 +8,11 @@ from vp.runner import open_risks, stable_hash
 LEVEL = 'exploration'
 RULE = ("seeded random networks (1-8 nodes of 1-3 node types, 1-3 operators per node incl. intra-node chains and fan-in, "
         "hierarchy depth 0-3, hostile identifier pool, permuted declaration order, fan-in/fan-out, weight classes "
-        "1.0/+-O(1)/1e-6/integers) compiled with get_run_func(vectorize=False, float64) and evaluated at 6 probe points "
+        "1.0/+-O(1)/1e-6/integers) compiled with get_run_func(vectorize=False, float64) - and, for models with several nodes per type, also through the default vectorized build - and evaluated at 6 probe points "
         "with parameters perturbed through the returned argument arrays; oracle = independent reference semantics "
         "(float64 + 40-digit mpmath); non-trivial = at least one edge or intra-node link or node-type override; distinct = "
         "distinct spec hash")
-DECIDING = ['derivatives_compared', 'layout_checks', 'arg_value_checks', 'perturbed_param_slots', 'medge_connections',
+DECIDING = ['derivatives_compared', 'derivatives_compared_vectorized', 'layout_checks', 'arg_value_checks', 'perturbed_param_slots', 'medge_connections',
             'mlabel_checks']
 ASSUMPTIONS = ['well-formed models only (see DESIGN 4a)', 'reference semantics vp/ref.py is the meaning of the model',
                'ill-conditioned probe points (float64 vs mpmath differ > 1e-11) are discarded and counted']
@@ -41,6 +41,8 @@ def plan(tier, seed):
     cases += [{'family': 'containing_names', 'cseed': rnd.randrange(1 << 30)} for _ in range(40 if tier == 'quick' else 1200)]
     # edges through EdgeTemplates (algebraic edge operators with per-edge constants)
     cases += [{'family': 'edge_templates', 'cseed': rnd.randrange(1 << 30)} for _ in range(50 if tier == 'quick' else 1500)]
+    # wide groups (11-16 structurally identical nodes, also with a single-node type): default vectorized build included
+    cases += [{'family': 'wide', 'cseed': rnd.randrange(1 << 30)} for _ in range(30 if tier == 'quick' else 600)]
     for feat in ET_FOCUS:
         fam = 'probe:' + feat if feat in opened else 'edge_templates'
         cases += [{'family': fam, 'cseed': rnd.randrange(1 << 30), 'want': feat} for _ in range(k)]
@@ -63,6 +65,9 @@ def make_spec(case, opened):
     rnd = random.Random(case['cseed'])
     want = case.get('want')
     fam = case.get('family')
+    if fam == 'wide':
+        from vp.props import c04
+        return c04.make_spec({'cseed': case['cseed'], 'family': 'wide'}, set(opened) | open_risks('C04'))
     if fam == 'containing_names':
         return gen.gen_net(rnd, pool=CONTAINING_POOL, forbid=opened, n_nodes=rnd.choice([1, 2, 3]),
                            edge_density=rnd.choice([0.6, 1.0]),
@@ -112,6 +117,24 @@ def run_case(case, ctx):
             res['spec'] = spec
             return res
         pos, worst = observe.compare_vf(obs, ref, rnd, ctx['mp'], n_points=6, vectorized=False, mech=mech)
+        # get_run_func vectorizes by default: the same model through the default path (structurally identical nodes merged),
+        # unless it carries the risk feature of a recorded C04 finding
+        from vp.props import c04
+        c04_open = open_risks('C04')
+        vrisk = c04.vec_risks(spec) | (set(risk) & {'vec_partial_input_default'})
+        if 'several_nodes_per_type' in feats and not (vrisk & c04_open) and 'edge_template' not in feats \
+                and (case.get('family') == 'wide' or rnd.random() < 0.4):
+            try:
+                obs_v = observe.compile_vf(spec, vectorize=True, style=style)
+            except Exception as e:
+                import traceback
+                raise observe.Mismatch(f"loud: get_run_func(vectorize=True) raised {type(e).__name__}: {e} :: {traceback.format_exc()[-600:]}")
+            m2 = {}
+            try:
+                observe.compare_vf(obs_v, ref, rnd, ctx['mp'], n_points=4, vectorized=True, mech=m2)
+            except observe.Mismatch as e:
+                raise observe.Mismatch(f"default (vectorized) build: {e}")
+            mech['derivatives_compared_vectorized'] = mech.get('derivatives_compared_vectorized', 0) + m2.get('derivatives_compared', 0)
         mon = monitors.collect()
         for k, v in mon['counters'].items():
             mech[k] = mech.get(k, 0) + v
